@@ -6,7 +6,7 @@ UNITS = [restore.select_unit('C15'), restore.plan_unit('C15'), snapbody.download
 UNITS = UNITS + cells.cell_units('C15') + cells.time_getter_units('C15')
 from specs import families as _families
 UNITS = _families.with_families('C15', UNITS)
-BOUNDED = [{'name': 'C15.e2e', 'script': 'bounded/c15_e2e.py', 'timeout': 900, 'bound': '3 (thorough: 40) seeded histories of 3-5 snapshots over 4 paths that appear/change/disappear x 6 snapshot filters x 6 file filters (incl. patterns differing from the names only in letter case); list-snapshots and list-files rows (names, counts, humanised sizes, digests, notes, order); delete of a printed / unknown name; the scripted history ends with a snapshot of an EMPTY tree with an EMPTY note (count 0 and empty note are shown as such)'}]
+BOUNDED = [{'name': 'C15.e2e', 'script': 'bounded/c15_e2e.py', 'timeout': 900, 'bound': 'the scripted history under a stepped UTC clock in three daylight-saving nights (POSIX TZ rules: CET spring / autumn, EST spring); 3 (thorough: 40) seeded histories of 3-5 snapshots over 4 paths that appear/change/disappear x 6 snapshot filters x 6 file filters (incl. patterns differing from the names only in letter case); list-snapshots and list-files rows (names, counts, humanised sizes, digests, notes, order); delete of a printed / unknown name; the scripted history ends with a snapshot of an EMPTY tree with an EMPTY note (count 0 and empty note are shown as such)'}]
 TRUSTED = [
     'vf symbolic executor (/verif/vf): encoding of the Python subset (DESIGN 2.2)',
     'z3 5.1 (API + z3-new CLI), cvc5 1.0.3 (strings)',
